@@ -344,8 +344,13 @@ func runCase(c Case, o *kit.Obs) *kit.Failure {
 			if base > 0 {
 				data = append(data, 0xDD, 0xDD, 0xDD)
 			}
+			if n == 0 && call%2 == 1 {
+				offsets = nil // no values at all: what Type.NewValues(nil, nil) hands to the encoder
+			}
 			encoded, err = e.EncodeByteArray(pickDst(dk, len(data)+4*n+16, prevEnc), data, offsets)
-			data = data[base:offsets[len(offsets)-1]]
+			if len(offsets) > 0 {
+				data = data[base:offsets[len(offsets)-1]]
+			}
 			if err == nil {
 				var out []byte
 				var offs []uint32
